@@ -151,7 +151,7 @@ def _objhash(obj):
     for cmd in (['objdump', '-D', '-r', '-M', 'intel', '-j', '.text', '--show-raw-insn', '-w', obj], ['readelf', '-sW', obj],
                 ['readelf', '-SW', obj]):
         out = subprocess.run(cmd, capture_output=True, text=True).stdout
-        h.update('\n'.join(l for l in out.splitlines() if obj not in l).encode())
+        h.update('\n'.join(l for l in out.splitlines() if obj not in l and ' FILE ' not in l).encode())
     return h.hexdigest()[:32]
 
 
